@@ -4,6 +4,8 @@
 //! ops (all f32 as bit patterns, counts in decimal)
 //!   plat    <tetra|octa|dodeca|icosa>
 //!   box     <lx> <ly> <lz> <rx> <ry> <rz>
+//!   cube    <side>            Box::cube(side)
+//!   boxdef                    Box::default()
 //!   sphere  <sectors> <segments> <radius>
 //!   torus   <major_sectors> <minor_sectors> <major_radius> <minor_radius>
 //!   cyl     <sectors> <segments> <capped 0|1> <radius>
@@ -66,6 +68,14 @@ pub fn gen(rng: &mut Rng, tier: Tier, out: &mut Vec<String>) {
     }
     for b in boxes {
         out.push(format!("box {}", b.iter().map(|x| h32(*x)).collect::<Vec<_>>().join(" ")));
+    }
+    // the two convenience constructors: Box::cube(side) and Box::default() (= cube(1.0))
+    out.push("boxdef".to_string());
+    for side in [1.0f32, 2.0, 0.5, 3.7, 1e-6, 1e-3, 1e3, 1e6, 0.1] {
+        out.push(format!("cube {}", h32(side)));
+    }
+    for _ in 0..(if q { 10 } else { 200 }) {
+        out.push(format!("cube {}", h32(rng.f32_in(0.01, 100.0))));
     }
     let radii: &[f32] = if q { &[1.0, 0.37, 25.0] } else { &[1.0, 0.37, 25.0, 1e-6, 1e-4, 1e-3, 1e-2, 1e3, 1e6, 3.1415927] };
     for secs in 3..=smax {
@@ -188,6 +198,8 @@ pub fn run(t: &[&str]) -> String {
             _ => panic!("unknown solid"),
         },
         "box" => Box { left_bot_near: pt3(f(1), f(2), f(3)), right_top_far: pt3(f(4), f(5), f(6)) }.build(),
+        "cube" => Box::cube(f(1)).build(),
+        "boxdef" => Box::default().build(),
         "sphere" => Sphere { sectors: u(1), segments: u(2), radius: f(3) }.build(),
         "torus" => Torus { major_sectors: u(1), minor_sectors: u(2), major_radius: f(3), minor_radius: f(4) }.build(),
         "cyl" => Cylinder { sectors: u(1), segments: u(2), capped: u(3) == 1, radius: f(4) }.build(),
